@@ -17,11 +17,11 @@ open GoPlugin
 exit, closed stdout, malformed line, wrong core version, unparsable / incompatible version, address
 translation or resolution failure, disallowed protocol, bad certificate, unsupported or unparsable
 multiplexing flag — and a panic. -/
-theorem start_failure_kills (P : Handshake.Params) (hK : P.deferKillsOnPanic = true) (c : Handshake.HostCfg) (e : Handshake.Ext) (i : Handshake.Input) :
+theorem start_failure_kills (P : Handshake.Params) (hK : P.deferKillsOnPanic = true) (hF : P.cleanupKillCtxFresh = true) (c : Handshake.HostCfg) (e : Handshake.Ext) (i : Handshake.Input) :
     (∀ k killed, Handshake.start P c e i = .err k killed → killed = true) ∧
     (∀ killed, Handshake.start P c e i = .panic killed → killed = true) := by
   constructor
-  · intro k killed h; exact Props.C01.start_err_kills P c e i k killed h
+  · intro k killed h; exact Props.C01.start_err_kills P hF c e i k killed h
   · intro killed h
     unfold Handshake.start at h
     cases hb : Handshake.body P c e i <;> simp [hb, Handshake.deferred] at h
@@ -34,7 +34,7 @@ theorem foreign_panic_kills (P : Handshake.Params) (hP : P.Good) : Handshake.sta
   simp [Handshake.startForeignPanic, Handshake.deferred, hP.2.2.2.2.2]
 
 /-- a clean-up that only looks at the named result `err` skips the kill while a panic unwinds (`err` is still nil) -/
-theorem no_recover_witness : Handshake.startForeignPanic ⟨true, true, 4, 50, 1, true, false⟩ = .panic false := by decide
+theorem no_recover_witness : Handshake.startForeignPanic ⟨true, true, 4, 50, 1, true, false, true⟩ = .panic false := by decide
 
 /-- With the good facts a start either succeeds with an address or fails having killed the process: there is
 no third outcome (no nil error with nil address, which would leave the process running). -/
@@ -45,7 +45,7 @@ theorem start_ok_or_killed (P : Handshake.Params) (hP : P.Good) (c : Handshake.H
   | ok a p v => exact Or.inl ⟨a, p, v, rfl⟩
   | okNoAddr => exact absurd h hnp.2
   | err k killed =>
-    have := Props.C01.start_err_kills P c e i k killed h
+    have := Props.C01.start_err_kills P hP.2.2.2.2.2.2 c e i k killed h
     subst this; exact Or.inr ⟨k, rfl⟩
   | panic killed => exact absurd h (hnp.1 killed)
 
